@@ -240,18 +240,53 @@ def record_traces(seed, n, N):
         events = []
         acts = []
         try:
-            for k in range(int(r.integers(1, 4))):
-                if r.uniform() < 0.4:
+            for k in range(int(r.integers(1, 6))):
+                u_ = r.uniform()
+                if u_ < 0.3:
                     acts.append("RemoveJumps")
                     Q.remove_jumps()
                     ev = {"act": "RemoveJumps", "inplace": False}
-                else:
+                elif u_ < 0.6:
                     ip = bool(r.uniform() < 0.5)
                     acts.append("SlerpNan")
                     ret = Q.slerp_nan(inplace=ip)
                     if not ip:
                         Q = make_QA(np.array(ret))
                     ev = {"act": "SlerpNan", "inplace": ip}
+                elif u_ < 0.8:
+                    # a preview: the returned rows are looked at, the object lives on
+                    acts.append("Preview")
+                    ret = Q.slerp_nan(inplace=False)
+                    rb = alpha_rows(np.asarray(ret, dtype=float), rows)
+                    if rb is None or any(rb[1]):
+                        fails.append(("C12|live-array|preview-rows-not-on-trajectory", {"subgroup": SUBGROUPS[si], "sg": sg, "nn": nn, "actions": acts, "returned": np.array(ret)}))
+                        events = None
+                        break
+                    ev = {"act": "Preview", "inplace": False, "rsg": rb[0]}
+                else:
+                    cur = alpha_rows(np.asarray(Q, dtype=float), rows)
+                    cand = [i for i in range(1, N - 1) if cur is not None and not cur[1][i]]
+                    ok_rows = []
+                    for i in cand:
+                        m = list(cur[1]); m[i] = True
+                        run = best = 0
+                        for x in m:
+                            run = run + 1 if x else 0
+                            best = max(best, run)
+                        if best <= 3:
+                            ok_rows.append(i)
+                    if not ok_rows:
+                        continue
+                    i = int(r.choice(ok_rows))
+                    acts.append("Poke(%d)" % (i + 1))
+                    Q[i] = np.nan          # through the ndarray interface of the live object
+                    ev = {"act": "Poke", "inplace": True, "row": i + 1}
+                # the object seen through its own buffer and through .array is one array
+                b1, b2 = np.asarray(Q, dtype=float), np.asarray(Q.array, dtype=float)
+                if not np.array_equal(b1, b2, equal_nan=True):
+                    fails.append(("C12|live-array|buffer-and-.array-differ-after-%s" % ev["act"], {"subgroup": SUBGROUPS[si], "sg": sg, "nn": nn, "actions": acts, "buffer": b1, "array": b2}))
+                    events = None
+                    break
                 ab = alpha_rows(Q.array, rows)
                 if ab is None:
                     fails.append(("C12|live-array|row-not-on-trajectory-after-%s" % ev["act"], {"subgroup": SUBGROUPS[si], "sg": sg, "nn": nn, "actions": acts, "array": np.array(Q.array)}))
